@@ -388,18 +388,25 @@ func Run(c *corr.Ctx) {
 	runScenario(c, srtpMissedWrap(c.Rng.Uint64(), true), "srtp-arbseq-late-join", st)
 
 	// random scenarios, each a few times (the schedule differs from run to run)
-	budget := time.Duration(c.N(28, 600)) * time.Second
-	reps := c.N(2, 3)
+	// (the model's lists make the oracle quadratic in the number of packets: its time is part of the
+	// budget, so the pending cases are flushed as we go)
+	budget := time.Duration(c.N(28, 560)) * time.Second
 	for i := 0; time.Since(t0) < budget; i++ {
-		n := 1000
-		if !c.Quick() && i%4 == 0 {
-			n = 10000
-		} else if i%3 == 1 {
+		n, reps := 1000, c.N(2, 3)
+		switch {
+		case !c.Quick() && i%12 == 0:
+			n, reps = 10000, 1
+		case !c.Quick() && i%3 == 0:
+			n = 3000
+		case i%3 == 1:
 			n = 200 + c.Rng.IntN(800)
 		}
 		sc := genScenario(c.Rng, n, !c.Quick() || i%3 == 0)
 		for k := 0; k < reps; k++ {
 			runScenario(c, sc, fmt.Sprintf("rand/%d/%d", i, k), st)
+		}
+		if i%8 == 7 || n >= 10000 {
+			c.Flush()
 		}
 	}
 
